@@ -219,7 +219,7 @@ def suggest_pattern(description):
     desc = re.sub(r'\s+\d{4,}.*$', '', desc)  # Remove trailing numbers (store IDs)
     desc = re.sub(r'\s+[A-Z]{2}$', '', desc)  # Remove trailing state codes
     desc = re.sub(r'\s+\d{5}$', '', desc)  # Remove zip codes
-    desc = re.sub(r'\s+#\d+', '', desc)  # Remove store numbers like #1234
+    desc = re.sub(r'\s+#\d+.*$', '', desc)  # Remove store numbers like #1234 (and what follows them)
 
     # Remove common prefixes
     prefixes = ['APLPAY ', 'SQ *', 'TST*', 'SP ', 'PP*', 'GOOGLE *']
